@@ -193,6 +193,9 @@ func c07Families(tier string) []c07Family {
 	for L := 5; L <= maxSat; L++ {
 		fs = append(fs, c07Lattice(fmt.Sprintf("sat%d", L), c07SatTypes, L, sat))
 	}
+	// (7') shapes far from 1: every multiset of 5 columns of the saturation lattice under alpha 0.05, 10, 101 and 1000
+	// (towards the uncorrected formula, which a large alpha approaches but never equals)
+	fs = append(fs, c07Lattice("alphas5", c07SatTypes, 5, c07Cfgs(c07Corrected, []float64{0.05, 10, 101, 1000}, nil, nil, []int{0})))
 	if th {
 		fs = append(fs, c07Ordered("gaps6", "AC-", 2, 6, gapCfg))
 		fs = append(fs, c07Ordered("gapsN4", "AC-N", 2, 4, gapCfgAmb))
@@ -280,7 +283,7 @@ func init() {
 			"(4) order-dependent internal-gap mode: all ordered 2xL over {A,C,-}, L=3..5 (thorough ..6) x {rawdist,pdist} x gap-mut x rm-gaps x weights {none,(1,2,..),(0.5,2,..)}, and over {A,C,-,N}, L=3 (thorough ..4) x the same x rm-ambiguous x weights {none,(0.5,2,..)}; " +
 			"(5) matrix level, M (42 configurations) = rawdist/pdist x gap-mut x rm-gaps, 5 corrected models x alpha {off,0.5,1} x rm-gaps: all 3x1 over {A,C,G,T,-,N} x M x V, all 3x2 over {A,C,G,T,-} x M x V[1,2,3,4,7], all 3x4 over {A,C} (pairs at exactly p=3/4 beside finite ones) x M x V[1..4], with V = {(no range, cpus 1), (no range, cpus 2, weights (1,2,..)), (ranges 0:0 vs 1:2), (overlapping 0:1 vs 1:2, cpus 2), (0:2 vs 0:2), (beyond the end 0:5 vs 1:7), (second before first 1:2 vs 0:1), (1:1 vs 1:1)}; all 7x1 over {A,C} x M x {3, 4, 5 workers; ranges 0:5 vs 1:6 with 4 workers} (more rows than workers); thorough adds all 3x3 over {A,C,G,-} x M x {(no range), (0:1 vs 1:2, cpus 2, weights)}, all 4x1 over {A,C,G,T,-} x M x 5 four-row variants, all 4x2 over {A,C,G,-} x M x {(no range), (0:2 vs 1:3, cpus 2)}; " +
 			"(6) every multiset of 4 pair columns over {A,C,G,T,-,N} x (quick: unweighted, alpha {off,1}: 38 configurations; thorough: O); thorough also 5 columns x the 38 and 3 columns over {A,C,G,T,-,N,R,Y} x O; " +
-			"(7) saturation lattice: every multiset of 5..6 (thorough 5..8) columns over 12 column types (A/A C/C G/G T/T, A/G G/A C/T T/C, A/C T/G, A/-, N/A) x 5 corrected models x 4 gamma settings x rm-gaps x weights {none,(0.5,2,..)} (thorough: all 4). " +
+			"(7') every multiset of 5 columns of the saturation lattice x 5 corrected models x alpha {0.05, 10, 101, 1000} x rm-gaps; (7) saturation lattice: every multiset of 5..6 (thorough 5..8) columns over 12 column types (A/A C/C G/G T/T, A/G G/A C/T T/C, A/C T/G, A/-, N/A) x 5 corrected models x 4 gamma settings x rm-gaps x weights {none,(0.5,2,..)} (thorough: all 4). " +
 			"A case is non-trivial when at least one pair of its matrix was compared with a defined estimator value or checked as an undefined/boundary pair (cases skipped as undetermined are not counted); distinct = distinct (alignment, options, weights, ranges).",
 		Assumptions: []string{
 			"textbook formulas: JC69, K80, F81 (Tajima-Nei form with B = 1 - sum pi^2), F84 (PHYLIP/FastME closed form), TN93; gamma variants replace -ln(x) by alpha*(x^(-1/alpha)-1) (Yang 2006)",
